@@ -463,7 +463,7 @@ func checkOperationCopy(c *Ctx, gen *packages.Package) {
 // generateReadableSpec(json of OrigSpec() / Spec()): both documents pass the escaper
 // unconditionally and come from the matching document.
 func checkEmbeddedStores(c *Ctx, rule string, gen *packages.Package) {
-	c.Rule(rule, "SwaggerJSON ⟸ generateReadableSpec(MarshalIndent(OrigSpec())), FlatSwaggerJSON ⟸ generateReadableSpec(MarshalIndent(Spec())); no other store", 2)
+	c.Rule(rule, "SwaggerJSON ⟸ generateReadableSpec(MarshalIndent(OrigSpec() or a value decoded from Raw())), FlatSwaggerJSON ⟸ generateReadableSpec(MarshalIndent(Spec())); no other store", 2)
 	info := gen.TypesInfo
 	want := map[string]string{"SwaggerJSON": "OrigSpec", "FlatSwaggerJSON": "Spec"}
 	found := map[string]int{}
@@ -486,13 +486,28 @@ func checkEmbeddedStores(c *Ctx, rule string, gen *packages.Package) {
 					}
 					if mc, isMC := ast.Unparen(src).(*ast.CallExpr); isMC && len(mc.Args) >= 1 {
 						if mf := goan.Callee(info, mc); mf != nil && (goan.CalleeName(mf) == "encoding/json.MarshalIndent" || goan.CalleeName(mf) == "encoding/json.Marshal") {
-							if dc, isDC := ast.Unparen(mc.Args[0]).(*ast.CallExpr); isDC {
-								if se, isSel := dc.Fun.(*ast.SelectorExpr); isSel && goan.LastSel(se.X) == "SpecDoc" {
-									if se.Sel.Name == want[field] {
-										ok = true
-									} else {
-										why = fmt.Sprintf("%s is built from SpecDoc.%s(), expected SpecDoc.%s()", field, se.Sel.Name, want[field])
+							// where the marshalled value comes from: SpecDoc.<X>() itself, or a local that only ever
+							// received SpecDoc.<X>() or a value decoded from SpecDoc.Raw() (the raw input, for the original)
+							srcs := documentSources(info, fd, mc.Args[0], 0)
+							accepted := map[string]bool{want[field]: true}
+							if field == "SwaggerJSON" {
+								accepted["Raw"] = true
+							}
+							if field == "SwaggerJSON" {
+								fromRaw := false
+								for _, sname := range srcs {
+									if sname == "Raw" {
+										fromRaw = true
 									}
+								}
+								c.Check(fromRaw, rule, fmt.Sprintf("generator.%s › the original document is decoded from the raw input", load.FuncName(fd)), c.posOf(gen, pos), "json.Unmarshal(SpecDoc.Raw(), …)",
+									"the embedded original document is marshalled from SpecDoc.OrigSpec() alone: that copy is a gob clone of the loaded document, and gob leaves out pointers to zero values — `minimum: 0`, `maximum: 0`, `minLength: 0`, `minItems: 0` of the input are missing from SwaggerJSON (and from the /swagger.json the server answers)")
+							}
+							ok = len(srcs) > 0
+							for _, sname := range srcs {
+								if !accepted[sname] {
+									ok = false
+									why = fmt.Sprintf("%s is built from SpecDoc.%s(), expected SpecDoc.%s()", field, sname, want[field])
 								}
 							}
 						}
@@ -862,4 +877,64 @@ func checkSpecLocation(c *Ctx, rule string, gen *packages.Package) {
 	if n == 0 {
 		c.Anchor(rule, "generator › store to GenOpts.Spec", "not found")
 	}
+}
+
+// documentSources: the SpecDoc accessors an expression's value comes from — the accessor called
+// directly, or, for a local variable, those of every value assigned to it and of every
+// json.Unmarshal(SpecDoc.<X>(), v) that fills it. "?" stands for anything else.
+func documentSources(info *types.Info, fd *ast.FuncDecl, e ast.Expr, depth int) []string {
+	e = ast.Unparen(e)
+	if un, ok := e.(*ast.UnaryExpr); ok && un.Op == token.AND {
+		e = ast.Unparen(un.X)
+	}
+	switch x := e.(type) {
+	case *ast.CallExpr:
+		if se, ok := x.Fun.(*ast.SelectorExpr); ok && goan.LastSel(se.X) == "SpecDoc" && len(x.Args) == 0 {
+			return []string{se.Sel.Name}
+		}
+		if goan.IsIdent(x.Fun, "new") {
+			return nil // an empty value: what fills it is found through json.Unmarshal below
+		}
+		return []string{"?"}
+	case *ast.Ident:
+		v, _ := info.Uses[x].(*types.Var)
+		if v == nil {
+			v, _ = info.Defs[x].(*types.Var)
+		}
+		if v == nil || depth > 3 {
+			return []string{"?"}
+		}
+		var out []string
+		for _, a := range goan.AssignmentsTo(info, fd.Body, v) {
+			if a.Rhs == nil || a.ResultIx >= 0 {
+				out = append(out, "?")
+				continue
+			}
+			out = append(out, documentSources(info, fd, a.Rhs, depth+1)...)
+		}
+		// filled by json.Unmarshal(<source>, v) / json.Unmarshal(<source>, &v)
+		ast.Inspect(fd.Body, func(n ast.Node) bool {
+			call, ok := n.(*ast.CallExpr)
+			if !ok || len(call.Args) != 2 {
+				return true
+			}
+			fn := goan.Callee(info, call)
+			if fn == nil || goan.CalleeName(fn) != "encoding/json.Unmarshal" {
+				return true
+			}
+			tgt := ast.Unparen(call.Args[1])
+			if un, ok := tgt.(*ast.UnaryExpr); ok && un.Op == token.AND {
+				tgt = ast.Unparen(un.X)
+			}
+			if id, ok := tgt.(*ast.Ident); ok && (info.Uses[id] == v) {
+				out = append(out, documentSources(info, fd, call.Args[0], depth+1)...)
+			}
+			return true
+		})
+		if len(out) == 0 {
+			out = []string{"?"}
+		}
+		return out
+	}
+	return []string{"?"}
 }
